@@ -82,7 +82,11 @@ def r02b(repo, chk):
                                         f"not only how they are printed", {"field": field}, where)
         else:
             chk.ok("R02.b", key, {"field": field, "kind": "semantic"})
-    # the output mode
+    rule_mode_readers(repo, chk, "R02.b")
+
+
+def rule_mode_readers(repo, chk, rule):
+    """The compact/verbose output mode is read only by the spelling functions (R02.b / R08.e)."""
     n_mode = 0
     for mn in PATH_MODULES:
         if not repo.has_mod(mn):
@@ -103,12 +107,12 @@ def r02b(repo, chk):
             if fn is None and isinstance(getattr(a, "parent", None), (ast.Assign, ast.AnnAssign)):
                 continue
             n_mode += 1
-            chk.judge("R02.b", f"{m.name}:{q}:reads the output mode ({hit})", (m.name, q) in SPELLING,
+            chk.judge(rule, f"{m.name}:{q}:reads the output mode ({hit})", (m.name, q) in SPELLING,
                       f"the compact/verbose output mode is read in {m.name}.{q}, which is not one of the spelling functions "
                       f"{sorted(f'{a_}.{b_}' for a_, b_ in SPELLING)}: compact output could differ from verbose output in more than token spelling",
                       None, f"{m.path}:{a.lineno} in {q}")
     if n_mode < 3:
-        raise AnalysisError(f"R02.b: only {n_mode} readers of the output mode found")
+        raise AnalysisError(f"{rule}: only {n_mode} readers of the output mode found")
 
 
 # ---------------------------------------------------------------------- R02.c
